@@ -149,7 +149,7 @@ def _corrupt_env(e):
     return None
 
 
-def binding_selftest(run, out, meta, gen, target, corrupt, remove_ev, pick_remove=None, pick_target=None, tag=None):
+def binding_selftest(run, out, meta, gen, target, corrupt, remove_ev, pick_remove=None, pick_target=None, label=None):
     """Binding demonstration with a corruption that is decisive for this trace format (nested byte
     tuples): in the first history of `gen` that has an event `target`, (a) corrupt() changes one
     recorded observation of that event, (b) the first event `remove_ev` that is directly followed by a poll is removed; TLC must reject both."""
@@ -183,7 +183,7 @@ def binding_selftest(run, out, meta, gen, target, corrupt, remove_ev, pick_remov
             res[tag + "_rejected"] = not acc
         res["corrupted"] = dict(event=ti, kind=target)
         res["removed"] = dict(event=ri, kind=evs[ri]["ev"])
-        run.selftests["Trace_FileConfig:" + gen + (":" + tag if tag else "")] = res
+        run.selftests["Trace_FileConfig:" + gen + (":" + label if label else "")] = res
         if not (res["corrupted_field_rejected"] and res["removed_event_rejected"]):
             raise vf.MachineryError("binding self-test failed for Trace_FileConfig/%s: %s" % (gen, res))
         vf.log("SELFTEST Trace_FileConfig %s %s" % (gen, res))
@@ -249,8 +249,8 @@ def traces(run):
     binding_selftest(run, out, meta, "wb", "SetValues", _corrupt_after, "SetValues")
     binding_selftest(run, out, meta, "ilv", "RlParse", _corrupt_parsed, "Edit", pick_remove=_edit_inside_reload)
     # the rest of the configuration space is bound too: who is registered, whether the file is there, the environment
-    binding_selftest(run, out, meta, "edit", "ObsAdd", _corrupt_obs_id, "Delete", pick_target=_obsadd_that_is_called, pick_remove=_delete_that_resets, tag="registry+existence")
-    binding_selftest(run, out, meta, "edit", "Env", _corrupt_env, "ObsAdd", pick_target=_env_that_answers, pick_remove=_obsadd_that_is_called, tag="environment")
+    binding_selftest(run, out, meta, "edit", "ObsAdd", _corrupt_obs_id, "Delete", pick_target=_obsadd_that_is_called, pick_remove=_delete_that_resets, label="registry+existence")
+    binding_selftest(run, out, meta, "edit", "Env", _corrupt_env, "ObsAdd", pick_target=_env_that_answers, pick_remove=_obsadd_that_is_called, label="environment")
     run.selftest(out, meta, gen="sys", spec="Trace_FsWrite", field="data")
     run.assumptions += [
         "a reload is taken apart only where it calls out (parser, observers): an edit is imposed after the stat and before the file is read, after the file was read and before anything reload does next, and after the map assignment; an edit BETWEEN two reads of the parser (a file changing while it is being read) is not imposed -- the external writer of the histories replaces the file as a whole",
